@@ -230,7 +230,7 @@ def arm_summary(arm_body, regvars):
 
 
 @rule("T-OPT-KILL", floor=40,
-      text="for every mnemonic, the knowledge-update step of optimize() invalidates at least what the instruction destroys (ref/6502.json): writers of A/X/Y reassign that register's known value unconditionally; writers of X (Y) drop known values whose operand text is indexed by ,X (,Y); memory writers (stores, INC/DEC, memory forms of shifts/rotates) drop knowledge of that operand (or more) in all three registers; JSR/JMP drop everything; instructions whose N/Z result is not the value of A update or clear `flags`")
+      text="for every mnemonic, the knowledge-update step of optimize() invalidates at least what the instruction destroys (ref/6502.json): writers of A/X/Y reassign that register's known value unconditionally; writers of X (Y) drop known values whose operand text is indexed by ,X (,Y); memory writers (stores, INC/DEC, memory forms of shifts/rotates) drop every known value that mirrors memory (anything but an immediate) in all three registers - two operand texts can name one cell; JSR/JMP drop everything; instructions whose N/Z result is not the value of A update or clear `flags`")
 def t_opt_kill(facts, res, tier):
     fn, binders, kill = opt_structure(facts)
     # map register -> knowledge variable from the load arms
@@ -309,8 +309,9 @@ def t_opt_kill(facts, res, tier):
             for r in ("A", "X", "Y"):
                 key = "T-OPT-KILL:%s:mem-%s" % (mn, r)
                 res.inst(key, True, None)
-                if not covers(regvar[r], "same_operand"):
-                    res.fail(key, where, "%s writes memory but the known value of %s is kept even when it names the same operand" % (mn, r))
+                # two operand texts may name one cell (tab+1 / tab,X; the two ports of a split-port cell): every memory mirror goes
+                if not covers(regvar[r], "non_immediate"):
+                    res.fail(key, where, "%s writes memory but a known value of %s that mirrors memory is kept unless it has the same operand text: `tab+1` and `tab,X` may be the same cell, and the reload after `INC tab,X` is deleted" % (mn, r))
         if d["kind"] in ("jump", "call"):
             for r in ("A", "X", "Y"):
                 key = "T-OPT-KILL:%s:all-%s" % (mn, r)
